@@ -7,6 +7,8 @@
   and the other variants are compared with the plain definitions by the
   correspondence stream (partial).
 -/
+import CSD.Generated.Bodies
+import CSD.Model.SourceText
 import CSD.Lemmas.RG
 
 namespace CSD.Props.C19
@@ -28,5 +30,12 @@ theorem rg_rank0_exact (words : List Nat) (factor i : Nat) (hf : 0 < factor)
   rw [rank1_eq_ones words factor i hf hi]
 
 example : rank1 [0b1011, 0] 1 3 = 3 := by decide
+
+/-- The models this file's theorems are about were written against the current text of the C++
+functions they mirror (`CSD/Generated/Bodies.lean` is re-extracted from the sources on every run,
+`CSD/Model/SourceText.lean` is what was reviewed): an edit of one of these functions breaks this
+obligation even if no generated input tells the behaviours apart. -/
+theorem models_match_source_text :
+    Generated.body_RG_rank1 = SourceText.body_RG_rank1 := rfl
 
 end CSD.Props.C19
